@@ -75,7 +75,7 @@ def evaluate(seed, suite=False):
         if suite:
             rc, out = sh(f"{PY} -m pytest -q -p no:cacheprovider --timeout=900 --continue-on-collection-errors "
                          f"-n 4 --junitxml=/tmp/sw/{seed}.xml", cwd=wt, timeout=3000)
-            base = set(open("/tmp/seedout/baseline_pass.txt").read().split("\n")) - {""}
+            base = set(open(os.path.join(ROOT, "tools", "baseline_pass.txt")).read().split("\n")) - {""}
             passed = set()
             try:
                 for tc in ET.parse(f"/tmp/sw/{seed}.xml").iter("testcase"):
